@@ -94,7 +94,27 @@ func suiteC20(c *ctx) {
 		rl := reqLen(u, p)
 		rep := replyBytes(r)
 		var script string
-		switch k := r.Intn(16); {
+		switch k := r.Intn(17); {
+		case k == 16:
+			// printf directives in every datum the module may log (the reply text with `debug`, the user
+			// name on success, an unknown module argument): logged data is data, never a format
+			dir := []string{"%s%s%s%s%s%s%s%s%s%s%s%s%s%s%s%s", "%n%n%n%n%n%n%n%n%n%n%n%n", "100%x.%x.%x.%x.%x.%x.%x.%x.%x.%x.%s.%s.%s.%s",
+				"%1$s%2$s%3$s%4$s%5$s%6$s%7$s%8$s", "%*d%*d%*d%s%s%s", "%%%s%%%n", "%99999999d%s%s%s%s"}[r.Intn(7)]
+			switch r.Intn(3) {
+			case 0:
+				body := []byte([]string{"NO ", "NO", "OK ", "xx "}[r.Intn(4)] + dir)
+				rep = append([]byte{byte(len(body) >> 8), byte(len(body))}, body...)
+				opts = []string{"debug", "debug,not_set_pass", "stackpw,try_first_pass,debug"}[r.Intn(3)]
+			case 1:
+				u = []byte("u" + dir)
+				rl = reqLen(u, p)
+				body := []byte("OK")
+				rep = append([]byte{0, 2}, body...)
+				opts = []string{"-", "debug"}[r.Intn(2)]
+			default:
+				opts = []string{"retries=" + dir, "debug," + dir, dir + ",try_first_pass"}[r.Intn(3)]
+			}
+			script = fmt.Sprintf("R%d;W%x;C", rl, rep)
 		case k < 6: // whole reply, close
 			script = fmt.Sprintf("R%d;W%x;C", rl, rep)
 		case k == 6: // reply cut at a random byte (every prefix over time), then close or reset
